@@ -512,6 +512,15 @@ def _ops():
         "deform max -> 0.4": setk("deform max", 0.4),
         "deform min -> 0.05": setk("deform min", 0.05),
         "deform min -> 0.4": setk("deform min", 0.4),
+        "area_um min -> 15": setk("area_um min", 15.0),
+        "area_um max -> 45": setk("area_um max", 45.0),
+        "deform in [0.2, 0.6] (not applied yet)": rng("deform", 0.2, 0.6),
+        "polygon 0 added (not applied yet)": padd(
+            0, ("area_um", "deform"), (15.0, 45.0, 0.0, 1.0)),
+        "event 1 excluded manually (not applied yet)": manual(1, False),
+        "dataset gains feature bright_avg (with nan) (not applied yet)":
+            lambda m: m.ds.data.__setitem__(
+                "bright_avg", [1.0, float("nan"), 3.0, 4.0, 5.0, 6.0]),
         "dataset gains feature bright_avg (with nan)": lambda m: m.ds.data
         .__setitem__("bright_avg", [1.0, float("nan"), 3.0, 4.0, 5.0, 6.0]),
         "feature bright_avg gets new data": lambda m: m.ds.data
@@ -582,12 +591,28 @@ def _histories(tier):
          "event 1 excluded manually", "remove invalid events on", "reset",
          "deform in [0.05, 0.9]"],
         ["deform in [0.2, 0.6]", "reset"],
+        # an application that is refused (one bound only), then repaired
+        ["area_um min -> 15", "area_um max -> 45"],
+        ["deform in [0.2, 0.6] (not applied yet)", "area_um min -> 15",
+         "area_um max -> 45"],
+        ["deform in [0.2, 0.6]", "deform in [0.05, 0.9] (not applied yet)"
+         if False else "deform range removed", "area_um min -> 15",
+         "deform in [0.2, 0.6] (not applied yet)", "area_um max -> 45"],
+        ["polygon 0 added (not applied yet)",
+         "event 1 excluded manually (not applied yet)", "area_um min -> 15",
+         "area_um max -> 45"],
+        ["limit events 2", "area_um min -> 15", "limit events 1",
+         "area_um max -> 45"],
+        ["bright_avg in [1, 2] (feature not in the dataset)",
+         "dataset gains feature bright_avg (with nan) (not applied yet)",
+         "area_um min -> 15", "area_um max -> 45"],
         ["remove invalid events on", "area_um in [20, 50]",
          "polygon 1 added", "limit events 2", "filters disabled",
          "filters enabled"],
     ]
     if tier == "thorough":
-        names = [n for n in _ops() if n != "reset"]
+        names = [n for n in _ops() if n != "reset"
+                 and not n.endswith("(not applied yet)")]
         core = ["deform in [0.2, 0.6]", "deform in [0.05, 0.9]",
                 "deform in [0.4, 0.4]", "deform range removed",
                 "area_um in [15, 45]", "remove invalid events on",
@@ -623,18 +648,23 @@ def r3_eval(ctx, repo):
         for name in h:
             ops[name](m)
             done.append(name)
+            if name.endswith("(not applied yet)"):
+                continue
             r = m.update()
             n_upd += 1
             where = "after [" + "; ".join(done) + "]"
             half = [ft for ft in ("deform", "area_um", "time", "bright_avg")
                     if (ft + " min" in m.cfg) != (ft + " max" in m.cfg)]
             if half:
-                # a range with one bound only is refused; the history ends
+                # a range with one bound only is refused; the history goes
+                # on: the next application that succeeds must be right
                 if not (r[0] == "raise" and r[1] == "ValueError"):
                     fail("half-open range refused", f"{where}: only one "
                          f"bound of {half[0]} is set, update() -> {r!r}, "
                          f"expected ValueError")
-                break
+                    break
+                done[-1] += " (refused)"
+                continue
             if r[0] != "ok":
                 fail("update evaluates", f"{where}: update() -> {r!r}")
                 break
@@ -745,6 +775,16 @@ def run(ctx):
 
 
 MUTANTS = [
+    ("features of a refused application count as known (F03c returns)", FILT,
+     ('features_old = list(getattr(self, "_features_filtered", []))',
+      'features_old = list(getattr(self, "features", []))'), "R3."),
+    ("settings snapshot taken before the evaluation (round-5 seed)", FILT,
+     [("        # Actual filtering is then done during plotting\n"
+       "        self._old_config = rtdc_ds.config.copy()[\"filtering\"]\n",
+       "        # Actual filtering is then done during plotting\n"),
+      ("        # 1. Invalid filters\n",
+       "        self._old_config = rtdc_ds.config.copy()[\"filtering\"]\n"
+       "        # 1. Invalid filters\n")], "R3."),
     ("range inactive when the bounds are merely close (seeded C03_12)", FILT,
      ("                                and cfg_cur[fstart] != cfg_cur[fend])",
       "                                and not np.isclose(cfg_cur[fstart],\n"
